@@ -21,7 +21,10 @@ def render_with(B, run, ce, path_items):
     E = B.engine(I.profile)
     f, env = E._resolve("CompiledExpression::scheme", {"S": "&str"})
     buf = SymBuf(path_items, name="mdt")
-    outs = I.call_fn(f, [ValRef(ce), StrSlice(buf, 0, len(path_items))], St(), env)
+    from mirsym.fmtmodel import new_cell
+    st = St()
+    key = new_cell(st, ce)            # a cell, not a snapshot: interior mutability stays visible
+    outs = I.call_fn(f, [Ref(key, ()), StrSlice(buf, 0, len(path_items))], st, env)
     alts = []
     for s_, v in outs:
         if isinstance(v, Panic):
@@ -30,6 +33,33 @@ def render_with(B, run, ce, path_items):
         for g2, x in alts_of(v):
             alts.append((b_and(g, g2), x.items))
     return alts
+
+
+def render_history(B, run, ce, paths):
+    """render the SAME compiled expression (held in a store cell, so that interior mutability is tracked) for each path in
+    turn -> [(guard, rope of the last rendering, compiled value afterwards)]"""
+    from mirsym.fmtmodel import new_cell
+    I = run.I
+    E = B.engine(I.profile)
+    f, env = E._resolve("CompiledExpression::scheme", {"S": "&str"})
+    st = St()
+    key = new_cell(st, ce)
+    states = [(st, None)]
+    for path_items in paths:
+        buf = SymBuf(path_items, name="mdt")
+        nxt = []
+        for s0, _ in states:
+            for s1, v in I.call_fn(f, [Ref(key, ()), StrSlice(buf, 0, len(path_items))], s0, env):
+                if isinstance(v, Panic):
+                    raise Inconclusive("scheme() panicked in a render sequence")
+                nxt.append((s1, v))
+        states = nxt
+    out = []
+    for s1, v in states:
+        g = b_and(*s1.pc)
+        for g2, x in alts_of(v):
+            out.append((b_and(g, g2), x.items, s1.store[key]))
+    return out
 
 
 def run(ctx, rep, tier):
@@ -101,6 +131,28 @@ def run(ctx, rep, tier):
                     pa = "".join(chr(model_char(m, c)) for c in p)
                     qa = "".join(chr(model_char(m, c)) for c in q)
                     confirm_diff(B, rep, expr, pa, qa, cname)
+            # histories: the same compiled expression rendered for p and then for q gives what a first rendering for q gives
+            if k >= 1 and (tier == "thorough" or k <= 2):
+                bad_hist = False
+                for kp in sorted({k, max(1, k - 1), k + 1}):
+                    p2 = [sym_char() for _ in range(kp)]
+                    hassume = passume + [z3.And(c != 34, c != 92, z3.UGE(c, 33), z3.ULE(c, 126)) for c in p2]
+                    cr.I.assumptions = hassume
+                    H = render_history(B, cr, ce, [p2, q])
+                    bad_hist = False
+                    for gh, rh, _ in H:
+                        match = False
+                        for gq, rq in AQ:
+                            if len(rh) == len(rq) and all(same(a, b) for a, b in zip(rh, rq)):
+                                match = b_or(match, gq)
+                        bad_hist = b_or(bad_hist, b_and(gh, b_not(match)))
+                    res, m = B.solve("%s:after-k%d:render-history" % (tag, kp), hassume, bad_hist)
+                    if res == z3.sat:
+                        expr = text if nsym is None else "-name '%s' -print" % "".join(chr(model_char(m, c)) for c in uchars)
+                        pa = "".join(chr(model_char(m, c)) for c in p2)
+                        qa = "".join(chr(model_char(m, c)) for c in q)
+                        confirm_history(B, rep, expr, pa, qa)
+                cr.I.assumptions = passume
             # the segment is one string literal decoding to the path: solver query over the path characters
             if k and nsym is None:
                 g1, rp1 = A1[0]
@@ -133,6 +185,20 @@ def run(ctx, rep, tier):
                outside="longer paths; other compiled expressions (scheme() does not inspect the fields it formats)",
                evaluations=len(rep.queries), distinct_nontrivial=len(rep.queries))
     rep.coverage = cov
+
+
+def confirm_history(B, rep, expr, pa, qa):
+    """native replay: render for pa then qa on one compiled expression vs a first rendering for qa"""
+    # the driver renders `x<expr> x<mdt> x<mdt2>...` on one compiled value when several device paths are given
+    d = B.ctx.run_native_history(expr, [pa, qa])
+    fresh = B.ctx.run_native([expr], "debug", mdt=qa)[0].get("scheme")
+    if d is None or fresh is None:
+        rep.inconclusive.append("render-history witness %r after %r could not be replayed" % (qa, pa))
+    elif d[-1] == fresh:
+        rep.inconclusive.append("render-history witness %r then %r for %r does not reproduce natively" % (pa, qa, expr))
+    else:
+        rep.violation("render:history", "%r rendered for %r and then for %r gives a different program than a first rendering for %r" % (expr, pa, qa, qa),
+                      dict(expr=expr, history=[pa, qa]))
 
 
 def confirm_diff(B, rep, expr, pa, qa, cname):
